@@ -421,6 +421,53 @@ func runC17(c *Ctx) {
 			}
 		}
 	}
+	// in state open every exit has forwarded: no return is reachable without the call of orig.Close except through
+	// "already closed", the nil wrapper, or "there is no original stream"
+	if len(deferredCloses) == 0 && len(closes) > 0 {
+		local := true
+		var cins []ssa.Instruction
+		for _, k := range closes {
+			local = local && k.Parent() == cl
+			cins = append(cins, k)
+		}
+		if local {
+			recv := cl.Params[0]
+			cut := anyFact(factNil(isUnderlying(cl), true), factNil(func(v ssa.Value) bool { return v == ssa.Value(recv) }, true), factNil(isOrig, true))
+			// (a return reached without anything having been done — no call but an error constructor, no store — is a
+			// refusal, whatever marker it tested)
+			var acts []ssa.Instruction
+			for _, in := range ownInstrs(cl) {
+				switch x := in.(type) {
+				case *ssa.Store:
+					acts = append(acts, in)
+				case ssa.CallInstruction:
+					n := calleeName(x.Common())
+					if n == "errors.New" || n == "fmt.Errorf" || isOneOf(cins...)(in) {
+						continue
+					}
+					acts = append(acts, in)
+				}
+			}
+			for _, ret := range realReturns(cl) {
+				ok := true
+				for _, a := range acts {
+					if pathExists(cl, nil, a, cut, isOneOf(cins...)) && pathExists(cl, a, ret, cut, isOneOf(cins...)) {
+						ok = false
+					}
+				}
+				c.obI("R17.2", ret, "open-wrapper-always-forwards-close", ok, "Close of an open wrapper over a stream, once it has done anything, leaves only after having called the stream's Close (nothing done first — draining, flushing — can make it give up before)", "a return is reachable in state open, after work was done, without orig.Close having been called: the underlying stream stays open")
+			}
+		}
+	}
+	// underlying == nil IS the state closed: only Close puts the wrapper into it (a probe or a read that drops the
+	// buffered reader makes Close answer "already closed" without ever reaching the stream)
+	for _, fn := range []*ssa.Function{hc, rd} {
+		for _, st := range fieldStores(fn, peekT, "underlying") {
+			if isNilConst(st.Val) {
+				c.obD("R17.2", st, "only-close-marks-closed", false, "the closed marker (underlying = nil) is set by Close alone", short(fn.String())+" clears the buffered reader: the wrapper counts as closed although the stream was never closed")
+			}
+		}
+	}
 	c.min("R17.2", 4)
 
 	// R17.3 nil receiver consistency
